@@ -35,6 +35,15 @@ Units(f, n) == (CHOOSE p \in f.pars : p.name = n).units
 RefsDefined(f) == /\ \A t \in f.trans : t[1] \in {c.name : c \in f.comps} /\ t[2] \in {c.name : c \in f.comps} /\ t[3] \in ({p.name : p \in f.pars} \cup {">"})
                   /\ \A c \in f.characs : c.parts \subseteq ({x.name : x \in f.comps} \cup {x.name : x \in f.characs}) /\ (c.denom = "" \/ c.denom \in Names(f))
                   /\ \A p \in f.pars : p.deps \subseteq (Names(f) \cup {"t", "dt"} \cup f.extranames)
+\* characteristics may include characteristics but not, directly or indirectly, themselves; junctions may feed junctions but not in a cycle
+RECURSIVE CReach(_,_,_)
+CReach(f, S, n) == IF n = 0 THEN S ELSE CReach(f, S \cup UNION {c.parts : c \in {d \in f.characs : d.name \in S}}, n - 1)
+CharacsAcyclic(f) == \A c \in f.characs : c.name \notin CReach(f, c.parts, Cardinality(f.characs))
+JNext(f, S) == {t[2] : t \in {u \in f.trans : u[1] \in S /\ u[2] \in {c.name : c \in f.comps} /\ Kind(f, u[2]) = "junction"}}
+RECURSIVE JReach(_,_,_)
+JReach(f, S, n) == IF n = 0 THEN S ELSE JReach(f, S \cup JNext(f, S), n - 1)
+Junctions(f) == {c.name : c \in {d \in f.comps : d.kind = "junction"}}
+JunctionsAcyclic(f) == \A j \in Junctions(f) : j \notin JReach(f, JNext(f, {j}), Cardinality(f.comps))
 ResidualOK(f) == \A t \in f.trans : t[3] = ">" => (t[1] \in {c.name : c \in f.comps} => Kind(f, t[1]) = "junction") /\ Cardinality({u \in f.trans : u[3] = ">" /\ u[1] = t[1]}) = 1
 LinkUnits(f) == \A t \in f.trans : (t[1] \in {c.name : c \in f.comps} /\ t[3] \in {p.name : p \in f.pars}) =>
                   /\ (Kind(f, t[1]) = "junction" <=> Units(f, t[3]) = "proportion")
@@ -56,7 +65,7 @@ PBUnique(f) == f.pb.dupprogs = 0 /\ "all" \notin f.pb.progs
 PBTargets(f) == f.pb.untargeted = {}            \* every program targets at least one population and one compartment
 PBComplete(f) == f.pb.defects = {}              \* unit cost and spending for every program, a baseline wherever outcomes are given, one currency, a known coverage interaction, all sheets
 ValidPB(f) == PBRefs(f) /\ PBUnique(f) /\ PBTargets(f) /\ PBComplete(f)
-Valid(f) == ResidualOK(f) /\ ValidPB(f) /\ DataComplete(f) /\ CodeNamesUnique(f) /\ DisplayNamesUnique(f) /\ NoReserved(f) /\ RefsDefined(f) /\ LinkUnits(f) /\ NoCycles(f) /\ CallsListed(f) /\ CascadeNested(f) /\ Complete(f)
+Valid(f) == CharacsAcyclic(f) /\ JunctionsAcyclic(f) /\ ResidualOK(f) /\ ValidPB(f) /\ DataComplete(f) /\ CodeNamesUnique(f) /\ DisplayNamesUnique(f) /\ NoReserved(f) /\ RefsDefined(f) /\ LinkUnits(f) /\ NoCycles(f) /\ CallsListed(f) /\ CascadeNested(f) /\ Complete(f)
 
 \* ---- mutations (each keeps everything else of the file) ----
 Par(n, u, d, c) == [name |-> n, units |-> u, deps |-> d, calls |-> c]
@@ -78,6 +87,9 @@ Mutate(f, m) ==
     [] m = "unsupported_call" -> [f EXCEPT !.pars = {IF p.name = "foi" THEN Par("foi", p.units, p.deps, p.calls \cup {"foo"}) ELSE p : p \in @}]
     [] m = "undefined_dependency" -> [f EXCEPT !.pars = {IF p.name = "foi" THEN Par("foi", p.units, p.deps \cup {"ghost"}, p.calls) ELSE p : p \in @}]
     [] m = "undefined_characteristic_component" -> [f EXCEPT !.characs = {IF c.name = "alive" THEN [c EXCEPT !.parts = @ \cup {"ghost"}] ELSE c : c \in @}]
+    [] m = "cyclic_characteristics" -> [f EXCEPT !.characs = @ \cup {[name |-> "c1", parts |-> {"c2", "sus"}, denom |-> ""], [name |-> "c2", parts |-> {"c1", "inf"}, denom |-> ""]}]
+    [] m = "junction_cycle" -> [f EXCEPT !.comps = @ \cup {[name |-> "jn2", kind |-> "junction"]}, !.trans = @ \cup {<<"jn", "jn2", ">">>, <<"jn2", "jn", ">">>, <<"jn2", "rcv", "split1">>}]
+    [] m = "residual_from_ordinary_compartment" -> [f EXCEPT !.trans = @ \cup {<<"sus", "rcv", ">">>}]
     [] m = "add_residual_outflow" -> [f EXCEPT !.trans = @ \cup {<<"jn", "sus", ">">>}]
     [] m = "two_residual_outflows" -> [f EXCEPT !.trans = @ \cup {<<"jn", "sus", ">">>, <<"jn", "inf", ">">>}]
     [] m = "unnested_cascade" -> [f EXCEPT !.cascade = <<{"sus", "inf"}, {"inf", "rcv"}>>]
@@ -108,7 +120,7 @@ Mutate(f, m) ==
     [] m \in {"progbook_none", "progbook_lowercase_flags", "progbook_zero_outcome"} -> f          \* spelling of Y/N flags, an outcome of exactly 0: no rule broken
     [] m = "progbook_unknown_population" -> [f EXCEPT !.pb.tpops = @ \cup {"nobody"}]
     [] m = "progbook_unknown_compartment" -> [f EXCEPT !.pb.tcomps = @ \cup {"ghost"}]
-    [] m = "progbook_duplicate_program" -> [f EXCEPT !.pb.dupprogs = 1]
+    [] m \in {"progbook_duplicate_program", "progbook_duplicate_program_everywhere"} -> [f EXCEPT !.pb.dupprogs = 1]
     [] m = "progbook_reserved_program_name" -> [f EXCEPT !.pb.progs = @ \cup {"all"}]
     [] m = "progbook_untargetable_parameter" -> [f EXCEPT !.pb.epars = @ \cup {"wane"}]
     [] m = "progbook_unknown_parameter" -> [f EXCEPT !.pb.epars = @ \cup {"ghostpar"}]
